@@ -177,6 +177,7 @@ type cluster struct {
 	streams  int
 	streamTasks map[int]bool // tasks that run a follower stream handler
 	flapping    bool         // the follower's node is between offline and online of a flap
+	putStarted  map[int64]bool // positions that were offered to a handler of the follower (it may have appended them)
 
 	// ledger
 	written  map[int64][]byte // leader sequence -> bytes as appended (of the leader's current log history)
@@ -419,6 +420,9 @@ func (s *srvStream) Recv() (*protoReplicaV1.ReplicaRequest, error) {
 	if len(st.toSrv) > 0 {
 		r := st.toSrv[0]
 		st.toSrv = st.toSrv[1:]
+		// recorded when the request reaches the handler: a follower that dies inside the append or before it
+		// answers may still have made the message durable
+		st.cl.putStarted[r.ReplicaIndex] = true
 		if st.broken && !st.cl.noFaults {
 			// stale delivery: processed after a tape-chosen delay although the client gave up
 			st.cl.sim.Fault("stale-delivery")
@@ -615,7 +619,7 @@ func (cl *cluster) check(when string) {
 func (H) Run(c *core.RunCtx) {
 	sim := c.Sim
 	cl := &cluster{c: c, sim: sim, nodes: map[int]*node{}, live: map[int]bool{leaderID: true, followerID: true}, watchers: map[int][]func(models.NodeStateType){},
-		appendedBy: map[int64]int{}, faultPM: c.Plan.C("fault_pm", 0), written: map[int64][]byte{}, lostFrom: 1 << 60, prevAck: -1, streamTasks: map[int]bool{}}
+		appendedBy: map[int64]int{}, faultPM: c.Plan.C("fault_pm", 0), written: map[int64][]byte{}, lostFrom: 1 << 60, prevAck: -1, streamTasks: map[int]bool{}, putStarted: map[int64]bool{}}
 	{
 		hot := float64(c.Plan.C("hot_pm", 0)) / 1000
 		main := sim.CurTask()
@@ -685,11 +689,12 @@ func (H) Run(c *core.RunCtx) {
 			c.Violate("C08/acked-beyond-follower-append", "leader's acknowledged position for the follower moved %d -> %d but the follower never appended beyond %d", cl.prevAck, ack, hw)
 		}
 		// position by position: the follower's counter can be moved without data (the handshake's Reset), so every
-		// newly acknowledged position must be one that a handler of the follower really appended at some time
-		// (a later loss of the follower's log does not make that wrong)
+		// newly acknowledged position must be one that reached a handler of the follower at some time (reached, not
+		// answered: a follower that dies inside the append or before it answers may have made the message durable;
+		// a later loss of the follower's log does not make an acknowledgement wrong)
 		for i := cl.prevAck + 1; i <= ack && !c.Violated(); i++ {
-			if _, appended := cl.appendedBy[i]; !appended && i >= 0 {
-				c.Violate("C08/acked-beyond-follower-append", "leader's acknowledged position for the follower moved %d -> %d, but position %d was never appended by the follower (its append counter was moved past it)", cl.prevAck, ack, i)
+			if !cl.putStarted[i] && i >= 0 {
+				c.Violate("C08/acked-beyond-follower-append", "leader's acknowledged position for the follower moved %d -> %d, but position %d was never even offered to the follower (its append counter was moved past it)", cl.prevAck, ack, i)
 			}
 		}
 		cl.prevAck = ack
